@@ -37,12 +37,16 @@ fn vtype_of(s: &FnSpec) -> u8 {
         "p6" => 5,
         "p5" => 7,
         "p7" => 8,
+        "r0" if s.max_memory.is_some() => 9,
+        "r1" if s.max_memory.is_some() => 10,
+        "r2" if s.max_memory.is_some() => 11,
         _ => 1,
     }
 }
 
 pub fn in_pool(s: &FnSpec) -> bool {
-    !(s.is_result && s.max_memory.is_some()) && s.family != "nested"
+    // (an async Result function with cache_if may store an Err, which the L1 side cannot build)
+    !(s.is_result && s.max_memory.is_some() && s.is_async && s.has_cache_if) && s.family != "nested"
 }
 
 fn mask_of(op: &Op2, f: u16, reg: &str) -> Option<u8> {
